@@ -434,7 +434,7 @@ def shrink_case(case):
 
 
 # ------------------------------------------------------------------------------- implementation
-def _estimator():
+def _estimator(multi=False):
     from sklearn.base import BaseEstimator
 
     class PassThrough(BaseEstimator):
@@ -446,7 +446,25 @@ def _estimator():
 
         def predict(self, X):
             return np.asarray(X, dtype=float)[:, 0]
-    return PassThrough().fit(None)
+
+    class MultiMethod(PassThrough):
+        """Same `predict`, but the estimator ALSO offers `predict_proba` and `decision_function`, and they rank the rows the
+        other way round: with `predict_method="predict"` given explicitly, fit and predict must both score with `predict`
+        (a thresholder that falls back to "auto" would pick another method and apply thresholds to another score scale)."""
+
+        def predict_proba(self, X):
+            g = 1.0 / (1.0 + np.exp(np.asarray(X, dtype=float)[:, 0]))
+            return np.stack([1.0 - g, g], axis=1)
+
+        def decision_function(self, X):
+            return -np.asarray(X, dtype=float)[:, 0]
+    return (MultiMethod() if multi else PassThrough()).fit(None)
+
+
+def multi_method(case):
+    """~25 % of the cases (derived from the case's own seed): the prefit estimator offers several scoring methods"""
+    import random as _r
+    return _r.Random("multi%s" % case.get("pseed", 0)).random() < 0.25
 
 
 def _thr(t):
@@ -506,7 +524,7 @@ def run_impl(case):
         # finding F13, repaired in /repo by ad411f1); corpus case f13-eo-named-y-dataframe keeps it covered
         ycol = {"y": y} if case.get("yname", True) else {0: y}
         yv, sv = pd.DataFrame(ycol, index=yi), pd.DataFrame({"sf": sf}, index=si)
-    to = ThresholdOptimizer(estimator=_estimator(), prefit=True, predict_method="predict",
+    to = ThresholdOptimizer(estimator=_estimator(multi_method(case)), prefit=True, predict_method="predict",
                             constraints=case["constraint"], objective=case["objective"],
                             grid_size=case["grid"], flip=case["flip"])
     if case.get("history"):
@@ -898,4 +916,5 @@ def case_tags(case, o):
         tags.append("predict-path-query")
         if any(g == -1 for g, _ in case["query"]):
             tags.append("query-has-unseen-group")
+    tags.append("estimator=several-scoring-methods" if multi_method(case) else "estimator=predict-only")
     return tags
